@@ -1913,7 +1913,8 @@ class EntityDef:
         copy.bases = deepcopy(self.bases, memodict)
         copy.helpers = deepcopy(self.helpers, memodict)
         copy.desc = self.desc
-        copy.resources = self.resources
+        # The resources themselves are immutable, but the list isn't. Keep the empty-tuple marker.
+        copy.resources = list(self.resources) if isinstance(self.resources, list) else self.resources
         copy.is_alias = self.is_alias
 
         # Avoid copy for these, we know the tags-map is immutable.
